@@ -502,7 +502,7 @@ func generatedInput(c *Ctx, l *core.Lane) (data []byte, name string, fmap []gen.
 		}
 		if kind == gen.CHEIF && x.Chance(1, 3) {
 			// HEIF with redundant iloc boxes and a long brand list
-			h := gen.DrawHEIFOpts(l, parts[0], l.Bool(), gen.HEIFOpts{ExtraIloc: 1 + x.Intn(6), Brands: x.Intn(12), InfeVariants: x.Intn(5), InfeVersions: infeVersions(c.L("gen:y"))})
+			h := gen.DrawHEIFOpts(l, parts[0], l.Bool(), gen.HEIFOpts{ExtraIloc: 1 + x.Intn(6), Brands: x.Intn(12), InfeVariants: x.Intn(5), InfeVersions: infeVersions(c.L("gen:y")), Iref: c.L("gen:y").Bool(), IrefBad: c.L("gen:y").Chance(1, 3)})
 			fmap = append(fmap, h.Map...)
 			for _, m := range emap {
 				fmap = append(fmap, gen.FieldSpan{Name: m.Name, Off: m.Off + h.TIFFOff, Len: m.Len})
